@@ -357,9 +357,44 @@ class Desugar(ast.NodeTransformer):
             return ast.copy_location(ast.Name(id=self.clsparam[-1][1], ctx=ast.Load()), node)
         return node
 
+    def visit_Attribute(self, node):
+        self.generic_visit(node)
+        # struct.Struct("<i").size -> 4
+        if node.attr == "size" and isinstance(node.value, ast.Call) and ast.unparse(node.value.func) in ("struct.Struct", "Struct") and len(node.value.args) == 1 \
+                and isinstance(node.value.args[0], ast.Constant) and isinstance(node.value.args[0].value, str):
+            n = _struct_size(node.value.args[0].value)
+            if n is not None:
+                return ast.copy_location(ast.Constant(value=n), node)
+        return node
+
+    def visit_DictComp(self, node):
+        self.generic_visit(node)
+        # {k(v): e(v) for v in (a, b, c)} -> {k(a): e(a), ...}
+        if len(node.generators) == 1 and not node.generators[0].ifs and isinstance(node.generators[0].iter, (ast.Tuple, ast.List)) \
+                and 0 < len(node.generators[0].iter.elts) <= 8 and isinstance(node.generators[0].target, ast.Name):
+            g = node.generators[0]
+            keys = [_subst(node.key, {g.target.id: e}) for e in g.iter.elts]
+            vals = [_subst(node.value, {g.target.id: e}) for e in g.iter.elts]
+            return ast.copy_location(ast.Dict(keys=keys, values=vals), node)
+        return node
+
+    def visit_Try(self, node):
+        self.generic_visit(node)
+        return node
+
     def visit_Expr(self, node):
         self.generic_visit(node)
         v = node.value
+        # deque(<generator>, maxlen=0)  ->  for .. : <element as a statement>
+        if isinstance(v, ast.Call) and ast.unparse(v.func) in ("deque", "collections.deque") and len(v.args) == 1 and isinstance(v.args[0], (ast.GeneratorExp, ast.ListComp)) \
+                and any(k.arg == "maxlen" and isinstance(k.value, ast.Constant) and k.value.value == 0 for k in v.keywords) and len(v.args[0].generators) == 1 \
+                and not v.args[0].generators[0].ifs:
+            g = v.args[0].generators[0]
+            tgt = copy.deepcopy(g.target)
+            for x in ast.walk(tgt):
+                if isinstance(x, (ast.Name, ast.Tuple)):
+                    x.ctx = ast.Store()
+            return ast.copy_location(ast.For(target=tgt, iter=g.iter, body=[ast.copy_location(ast.Expr(value=v.args[0].elt), node)], orelse=[], type_comment=None), node)
         # arr.fill(v)  ->  arr[:] = v
         if isinstance(v, ast.Call) and isinstance(v.func, ast.Attribute) and v.func.attr == "fill" and isinstance(v.func.value, ast.Name) and len(v.args) == 1 and not v.keywords:
             tgt = ast.Subscript(value=ast.Name(id=v.func.value.id, ctx=ast.Load()), slice=ast.Slice(lower=None, upper=None, step=None), ctx=ast.Store())
@@ -374,6 +409,51 @@ class Desugar(ast.NodeTransformer):
             x, a, d = node.args
             test = ast.Call(func=ast.Name(id="hasattr", ctx=ast.Load()), args=[copy.deepcopy(x), a], keywords=[])
             return ast.copy_location(ast.IfExp(test=test, body=ast.Attribute(value=x, attr=a.value, ctx=ast.Load()), orelse=d), node)
+        # partial(F, a, b)(c)  ->  F(a, b, c)
+        if isinstance(node.func, ast.Call) and ast.unparse(node.func.func) in ("partial", "functools.partial") and node.func.args \
+                and not any(isinstance(a, ast.Starred) for a in node.func.args + node.args):
+            inner = node.func
+            kws = list(inner.keywords) + [k for k in node.keywords]
+            if len({k.arg for k in kws}) == len(kws):
+                return self.visit_Call(ast.copy_location(ast.Call(func=inner.args[0], args=list(inner.args[1:]) + list(node.args), keywords=kws), node))
+        # attrgetter("a")(x)  ->  x.a ;  itemgetter(k)(x) -> x[k]
+        if isinstance(node.func, ast.Call) and ast.unparse(node.func.func) in ("attrgetter", "operator.attrgetter") and len(node.func.args) == 1 \
+                and isinstance(node.func.args[0], ast.Constant) and isinstance(node.func.args[0].value, str) and node.func.args[0].value.isidentifier() and len(node.args) == 1 and not node.keywords:
+            return ast.copy_location(ast.Attribute(value=node.args[0], attr=node.func.args[0].value, ctx=ast.Load()), node)
+        if isinstance(node.func, ast.Call) and ast.unparse(node.func.func) in ("itemgetter", "operator.itemgetter") and len(node.func.args) == 1 and len(node.args) == 1 and not node.keywords:
+            return ast.copy_location(ast.Subscript(value=node.args[0], slice=node.func.args[0], ctx=ast.Load()), node)
+        # map(F, X) -> (F(v) for v in X) ;  map(F, repeat(x, n)) -> (F(x) for _ in range(n)) ;  filter(lambda v: C, X) -> (v for v in X if C)
+        if fn == "map" and len(node.args) == 2 and not node.keywords and isinstance(node.args[0], (ast.Name, ast.Attribute, ast.Call, ast.Lambda)):
+            f, xs = node.args
+            if isinstance(xs, ast.Call) and ast.unparse(xs.func) in ("repeat", "itertools.repeat") and len(xs.args) == 2:
+                elt = self.visit_Call(ast.Call(func=f, args=[xs.args[0]], keywords=[]))
+                rng = ast.Call(func=ast.Name(id="range", ctx=ast.Load()), args=[xs.args[1]], keywords=[])
+                return ast.copy_location(ast.GeneratorExp(elt=elt, generators=[ast.comprehension(target=ast.Name(id="_", ctx=ast.Store()), iter=rng, ifs=[], is_async=0)]), node)
+            v = f"_mv{next(_counter)}"
+            elt = ast.Call(func=f, args=[ast.Name(id=v, ctx=ast.Load())], keywords=[])
+            elt = self.visit_Call(elt) if isinstance(f, ast.Call) else elt
+            return ast.copy_location(ast.GeneratorExp(elt=elt, generators=[ast.comprehension(target=ast.Name(id=v, ctx=ast.Store()), iter=xs, ifs=[], is_async=0)]), node)
+        if fn == "filter" and len(node.args) == 2 and isinstance(node.args[0], ast.Lambda) and len(node.args[0].args.args) == 1 and not node.args[0].args.defaults:
+            lam, xs = node.args
+            v = lam.args.args[0].arg
+            return ast.copy_location(ast.GeneratorExp(elt=ast.Name(id=v, ctx=ast.Load()), generators=[ast.comprehension(target=ast.Name(id=v, ctx=ast.Store()), iter=xs, ifs=[lam.body], is_async=0)]), node)
+        # list(<generator>) -> [..]
+        if fn == "list" and len(node.args) == 1 and not node.keywords and isinstance(node.args[0], ast.GeneratorExp):
+            return ast.copy_location(ast.ListComp(elt=node.args[0].elt, generators=node.args[0].generators), node)
+        # struct.Struct(F).pack(a) / .unpack(d) / .unpack_from -> struct.pack(F, a) ...
+        if isinstance(node.func, ast.Attribute) and node.func.attr in ("pack", "unpack") and isinstance(node.func.value, ast.Call) \
+                and ast.unparse(node.func.value.func) in ("struct.Struct", "Struct") and len(node.func.value.args) == 1:
+            st = ast.Attribute(value=ast.Name(id="struct", ctx=ast.Load()), attr=node.func.attr, ctx=ast.Load())
+            return ast.copy_location(ast.Call(func=st, args=[node.func.value.args[0]] + list(node.args), keywords=node.keywords), node)
+        # f(**{"a": x, "b": y})  ->  f(a=x, b=y)
+        if any(k.arg is None and isinstance(k.value, ast.Dict) and all(isinstance(kk, ast.Constant) and isinstance(kk.value, str) for kk in k.value.keys) for k in node.keywords):
+            kws = []
+            for k in node.keywords:
+                if k.arg is None and isinstance(k.value, ast.Dict) and all(isinstance(kk, ast.Constant) and isinstance(kk.value, str) for kk in k.value.keys):
+                    kws += [ast.keyword(arg=kk.value, value=vv) for kk, vv in zip(k.value.keys, k.value.values)]
+                else:
+                    kws.append(k)
+            node.keywords = kws
         # zip(count(a), X)
         if fn == "zip" and len(node.args) == 2 and isinstance(node.args[0], ast.Call) and ast.unparse(node.args[0].func) in ("count", "itertools.count") and len(node.args[0].args) <= 1:
             start = node.args[0].args[0] if node.args[0].args else ast.Constant(value=0)
@@ -389,16 +469,6 @@ class Desugar(ast.NodeTransformer):
             gen = ast.GeneratorExp(elt=ast.Compare(left=x, ops=[ast.Eq()], comparators=[y]),
                                    generators=[ast.comprehension(target=ast.Tuple(elts=[ast.Name(id="_mx", ctx=ast.Store()), ast.Name(id="_my", ctx=ast.Store())], ctx=ast.Store()), iter=z, ifs=[], is_async=0)])
             return ast.copy_location(ast.Call(func=node.func, args=[gen], keywords=[]), node)
-        # list(map(f, X)) with f a plain name / attribute
-        if fn == "list" and len(node.args) == 1 and isinstance(node.args[0], ast.Call) and ast.unparse(node.args[0].func) == "map" and len(node.args[0].args) == 2 \
-                and isinstance(node.args[0].args[0], (ast.Name, ast.Attribute)):
-            f, xs = node.args[0].args
-            if isinstance(xs, ast.GeneratorExp) and len(xs.generators) == 1:
-                elt = ast.Call(func=f, args=[xs.elt], keywords=[])
-                return ast.copy_location(ast.ListComp(elt=elt, generators=xs.generators), node)
-            v = ast.Name(id="_mv", ctx=ast.Load())
-            return ast.copy_location(ast.ListComp(elt=ast.Call(func=f, args=[v], keywords=[]),
-                                                  generators=[ast.comprehension(target=ast.Name(id="_mv", ctx=ast.Store()), iter=xs, ifs=[], is_async=0)]), node)
         # f(*[a, b])  ->  f(a, b)
         if any(isinstance(a, ast.Starred) and isinstance(a.value, (ast.List, ast.Tuple)) for a in node.args):
             args = []
@@ -481,6 +551,51 @@ class Desugar(ast.NodeTransformer):
                         x.ctx = ast.Store()
                 return ast.copy_location(ast.For(target=tgt, iter=g.iter, body=[inner], orelse=[], type_comment=None), node)
         return node
+
+
+def _struct_size(fmt: str):
+    sizes = {"b": 1, "B": 1, "?": 1, "c": 1, "h": 2, "H": 2, "i": 4, "I": 4, "l": 4, "L": 4, "f": 4, "q": 8, "Q": 8, "d": 8, "x": 1}
+    f = fmt
+    if not f or f[0] not in "<>=!":
+        return None  # native alignment: not a fixed size
+    f = f[1:]
+    total, num = 0, ""
+    for ch in f:
+        if ch.isdigit():
+            num += ch
+            continue
+        if ch == "s":
+            total += int(num or 1)
+        elif ch in sizes:
+            total += sizes[ch] * int(num or 1)
+        else:
+            return None
+        num = ""
+    return total if not num else None
+
+
+class TryFinallyClose:
+    """X = <open expr>; try: BODY finally: X.close()      ==>   with <open expr> as X: BODY"""
+
+    def run(self, tree):
+        for owner, fld in list(_blocks(tree)):
+            stmts = getattr(owner, fld)
+            out = []
+            i = 0
+            while i < len(stmts):
+                st = stmts[i]
+                nxt = stmts[i + 1] if i + 1 < len(stmts) else None
+                if isinstance(st, ast.Assign) and len(st.targets) == 1 and isinstance(st.targets[0], ast.Name) and isinstance(st.value, ast.Call) \
+                        and (ast.unparse(st.value.func) == "open" or (isinstance(st.value.func, ast.Attribute) and st.value.func.attr == "open")) \
+                        and isinstance(nxt, ast.Try) and not nxt.handlers and not nxt.orelse and len(nxt.finalbody) == 1 and isinstance(nxt.finalbody[0], ast.Expr) \
+                        and isinstance(nxt.finalbody[0].value, ast.Call) and ast.unparse(nxt.finalbody[0].value.func) == f"{st.targets[0].id}.close":
+                    w = ast.With(items=[ast.withitem(context_expr=st.value, optional_vars=ast.Name(id=st.targets[0].id, ctx=ast.Store()))], body=nxt.body)
+                    out.append(ast.copy_location(w, st))
+                    i += 2
+                    continue
+                out.append(st)
+                i += 1
+            setattr(owner, fld, out)
 
 
 # ------------------------------------------------------------------------------------------- D4 local closures
@@ -815,6 +930,7 @@ def desugar_module(tree: ast.Module):
     ast.fix_missing_locations(tree)
     WalrusHoist().run(tree)
     WhileToFor().run(tree)
+    TryFinallyClose().run(tree)
     Desugar().visit(tree)
     ast.fix_missing_locations(tree)
     return tree
